@@ -102,3 +102,26 @@ package crypto
 //@   defines err == nil ==> originChainAuthenticated()
 //@ func AuthenticateTokenV2
 //@   ensures [authentic_only_with_its_origin_chain] err == nil && tokenHasOrigin() ==> originChainAuthenticated()
+
+// ---- C24 (objects created within a delegated session): "the signature authenticates the
+// session" includes the delegation chain of a V2 token being well formed - every token's
+// issuer is a subject of the token it derives from, verbs and lifetimes only narrow - which
+// is what Token.Validate checks; the signatures alone do not (anybody can sign a token that
+// names somebody else's token as its origin). Whatever verdict is cached for the token must
+// include it.
+//@ ghost pred objectHasV2Session() bool
+//@ ghost pred v2DelegationChainValidated() bool
+//@ callrule c24_object_v2_session in AuthenticateObject
+//@   property C24
+//@   callee (object.Object).SessionTokenV2, (*object.Object).SessionTokenV2
+//@   pureeffect
+//@   defines (result != nil) == objectHasV2Session()
+//@ callrule c24_v2_chain_validation in AuthenticateObject, AuthenticateObject$2
+//@   property C24
+//@   callee *Token).Validate
+//@   pureeffect
+//@   optional
+//@   defines err == nil ==> v2DelegationChainValidated()
+//@ func AuthenticateObject$2
+//@   property C24
+//@   ensures [cached_verdict_includes_the_delegation_chain] err == nil ==> v2DelegationChainValidated()
